@@ -199,6 +199,8 @@ def defopts_arg(pairs, dict_form):
 def machine_text(entries, cross_header=False):
     secs = {}
     for sec, k, v in entries:
+        if isinstance(v, int) and not isinstance(v, bool) and v < 0:
+            v = str(v)      # the machine-file grammar has no negative number literal; Machine-files.md shows option2 = '2'
         secs.setdefault(sec, []).append('%s = %s\n' % (k, lit(v)))
     out = ''
     if cross_header:
@@ -1236,13 +1238,13 @@ _MSG = re.compile(r'Message: VERIF\|(\w+)\|([\w.\-]+)\|([VF]) (.*?) \|END')
 _B_SEQ = [0]
 
 
-def run_b(scn, keep=False):
+def run_b(scn, keep=False, cold=False):
     from verif import mesonproc as mp
     _B_SEQ[0] += 1
     root = os.path.join(scratch_root(), 'b%d_%d' % (os.getpid(), _B_SEQ[0]))
     files, argv = b_tree(scn)
     mp.write_tree(root, files)
-    r = mp.run_meson(argv, root, timeout=120)
+    r = mp.cold_meson(argv, root, mp.base_env(), timeout=300) if cold else mp.run_meson(argv, root, timeout=120)
     res = {'rejected': None, 'obs': {}, 'bad': [], 'crash': None}
     raw = {}
     for m in _MSG.finditer(r.out):
@@ -1293,6 +1295,13 @@ def b_adjust_features(case):
     return c
 
 
+def work_b_cold(case):
+    """The same setup through the fork runner and through `python meson.py` in a fresh interpreter."""
+    a = run_b(case['scn'])
+    b = run_b(case['scn'], cold=True)
+    return a['obs'] == b['obs'] and bool(a['rejected']) == bool(b['rejected']), a['obs'], b['obs']
+
+
 def work_b(case):
     res = run_b(case['scn'])
     jc = b_adjust_features(case)
@@ -1331,6 +1340,8 @@ def tier_a_tasks(ck):
     for cross, df, ms in sub_forms:
         specs.append(('fam_sub', dict(mode='bsub', names=persub, cross=cross, dict_form=df, mstr=ms)))
         for mode in ('pnon', 'pyield', 'pyieldT', 'pnon0', 'pyield0'):
+            if cross and not ck.thorough and mode != 'pnon':
+                continue        # quick: the cross variant only for built-in and plain project options
             specs.append(('fam_sub', dict(mode=mode, names=list(PK), cross=cross, dict_form=df, mstr=ms)))
     specs.append(('fam_buildtype_top', dict()))
     specs.append(('fam_buildtype_top_argparse', dict()))
@@ -1425,7 +1436,7 @@ def tier_b_cases(ck):
         pm = [c for c in pm if c['meta']['a'] == seed % 3]
     out += group_merge(pm, 'permachine', lambda c: (tuple(c['meta']['subset']), c['meta']['a']))
     # ---- subproject 2^8
-    subs = [(False, False, False, None), (True, True, True, seed % 3)] if not ck.thorough else \
+    subs = [(False, False, False, None)] if not ck.thorough else \
         [(False, False, False, None), (True, True, True, None), (False, True, True, None), (True, False, False, None)]
     for cross, df, ms, only_a in subs:
         cs = list(fam_sub('bsub', persub, cross, df, ms))
@@ -1440,7 +1451,7 @@ def tier_b_cases(ck):
     out += group_merge(lt, 'top-late', lambda c: (tuple(c['meta']['subset']), c['meta']['a']))
     ls = list(fam_sub('bsub', ['c_std'], False, False, False))
     if not ck.thorough:
-        ls = [c for c in ls if c['meta']['a'] == (seed + 1) % 3]
+        ls = [c for c in ls if c['meta']['a'] == (seed + 1) % 3 and (len(c['meta']['subset']) <= 2 or len(c['meta']['subset']) == 8)]
     out += group_merge(ls, 'sub-late', lambda c: (tuple(c['meta']['subset']), c['meta']['a']))
     # ---- buildtype
     bt = list(fam_buildtype_top())
@@ -1540,7 +1551,14 @@ def main():
             if probs:
                 f['violating'] += 1
                 report(ck, 'B', case, probs, work_b)
-        ck.part('tierB', setups=len(cases), families=fams, tierA_same_observation=agree, tierA_differs=disagree)
+        cold = cases[ck.seed % 7::max(1, len(cases) // 8)][:8]
+        cold_ok = 0
+        for case, (same, oa, ob) in zip(cold, pmap(work_b_cold, cold)):
+            if not same:
+                ck.internal('fork runner and cold `python meson.py` disagree on %s: %r vs %r' % (json.dumps(case['meta'], default=repr), oa, ob))
+            cold_ok += 1
+        ck.part('tierB', setups=len(cases), families=fams, tierA_same_observation=agree, tierA_differs=disagree,
+                cold_revalidated=cold_ok)
         ck.require(len(cases) > 500, 'too few tier B setups')
         ck.require(agree > 0, 'tier A / tier B cross-validation never ran')
         files, argv = b_tree(cases[len(cases) // 2]['scn'])
